@@ -472,3 +472,34 @@ def _drop_stmt_macro(self, name, rule="E6"):
 
 Item.replace_macro = _replace_macro
 Item.drop_stmt_macro = _drop_stmt_macro
+
+
+def _before_tail(self, text):
+    """insert ghost code just before the function's tail expression (after the last `;` at body depth 1)"""
+    toks = self._toks
+    depth = 0
+    last_semi = self.body_open
+    j = self.body_open + 1
+    blocks_after = 0
+    while j < self.body_close:
+        t = toks[j]
+        if t.kind == "punct" and t.text in OPEN:
+            e = match_close(toks, j)
+            if t.text == "{":
+                blocks_after += 1
+            j = e + 1
+            continue
+        if t.kind == "punct" and t.text == ";":
+            last_semi = j
+            blocks_after = 0
+        j += 1
+    # a block statement followed by a separate tail expression cannot be told apart from a tail block: refuse
+    tail = [t for t in toks[last_semi + 1:self.body_close] if t.kind != "comment"]
+    if not tail:
+        raise ExtractError("fn %s has no tail expression" % self.name)
+    if blocks_after > 1 or (blocks_after == 1 and tail[-1].text != "}" and tail[0].text in ("if", "for", "while", "loop", "match")):
+        raise ExtractError("fn %s: cannot locate the tail expression unambiguously" % self.name)
+    self._insert(toks[last_semi].end, "\n" + text.rstrip() + "\n", "S-ghost: ghost code before the tail expression")
+
+
+Item.before_tail = _before_tail
